@@ -203,4 +203,6 @@ def run(model, tier):
     interface_continuity(model, res)
     from . import c13_eikonal
     c13_eikonal.eikonal(model, res, tier)
+    from . import c13_acos
+    c13_acos.check(model, res)      # cosines of angles between vectors are clamped before arccos
     return res
